@@ -173,20 +173,32 @@ func mergeBuild(c any, o any, path tree.Path) (any, error) {
 }
 
 func mergeDependsOn(c any, o any, path tree.Path) (any, error) {
-	right := convertIntoMapping(c, map[string]any{
+	right, err := convertIntoMapping(c, map[string]any{
 		"condition": "service_started",
 		"required":  true,
-	})
-	left := convertIntoMapping(o, map[string]any{
+	}, path)
+	if err != nil {
+		return nil, err
+	}
+	left, err := convertIntoMapping(o, map[string]any{
 		"condition": "service_started",
 		"required":  true,
-	})
+	}, path)
+	if err != nil {
+		return nil, err
+	}
 	return mergeMappings(right, left, path)
 }
 
 func mergeNetworks(c any, o any, path tree.Path) (any, error) {
-	right := convertIntoMapping(c, nil)
-	left := convertIntoMapping(o, nil)
+	right, err := convertIntoMapping(c, nil, path)
+	if err != nil {
+		return nil, err
+	}
+	left, err := convertIntoMapping(o, nil, path)
+	if err != nil {
+		return nil, err
+	}
 	return mergeMappings(right, left, path)
 }
 
@@ -253,9 +265,15 @@ func mergeUlimit(_ any, o any, p tree.Path) (any, error) {
 func mergeIPAMConfig(c any, o any, path tree.Path) (any, error) {
 	var ipamConfigs []any
 	for _, original := range c.([]any) {
-		right := convertIntoMapping(original, nil)
+		right, err := convertIntoMapping(original, nil, path)
+		if err != nil {
+			return nil, err
+		}
 		for _, override := range o.([]any) {
-			left := convertIntoMapping(override, nil)
+			left, err := convertIntoMapping(override, nil, path)
+			if err != nil {
+				return nil, err
+			}
 			if left["subnet"] != right["subnet"] {
 				// check if left is already in ipamConfigs, add it if not and continue with the next config
 				if !slices.ContainsFunc(ipamConfigs, func(a any) bool {
@@ -285,23 +303,30 @@ func mergeIPAMConfig(c any, o any, path tree.Path) (any, error) {
 	return ipamConfigs, nil
 }
 
-func convertIntoMapping(a any, defaultValue map[string]any) map[string]any {
+func convertIntoMapping(a any, defaultValue map[string]any, p tree.Path) (map[string]any, error) {
 	switch v := a.(type) {
+	case nil:
+		// an empty (null) attribute is an empty mapping
+		return map[string]any{}, nil
 	case map[string]any:
-		return v
+		return v, nil
 	case []any:
 		converted := map[string]any{}
 		for _, s := range v {
+			key, ok := s.(string)
+			if !ok {
+				return nil, fmt.Errorf("%s: unexpected type %T", p, s)
+			}
 			if defaultValue == nil {
-				converted[s.(string)] = nil
+				converted[key] = nil
 			} else {
 				// Create a new map for each key
-				converted[s.(string)] = copyMap(defaultValue)
+				converted[key] = copyMap(defaultValue)
 			}
 		}
-		return converted
+		return converted, nil
 	}
-	return nil
+	return nil, fmt.Errorf("cannot override %s", p)
 }
 
 func copyMap(m map[string]any) map[string]any {
